@@ -127,7 +127,19 @@ def moments(ctx: Context) -> None:
             # filled entry by entry: the documented 18 entries, each stored
             ok = allocs[0].value.args[0].value == 18  # type: ignore[union-attr]
             ctx.check(ok, "R3.vector", "get_mom_ts_1d:alloc", "the summary has 18 entries", f"summary allocated by `{src(allocs[0].value) if allocs else '?'}`", f, allocs[0] if allocs else r)  # type: ignore[union-attr]
-            idxs = sorted({a.targets[0].slice.value for _, a in stores if isinstance(a, ast.Assign) and isinstance(a.targets[0].slice, ast.Constant)})  # type: ignore[union-attr]
+            def _int_const(e_: ast.expr) -> int | None:
+                if isinstance(e_, ast.Constant) and type(e_.value) is int:
+                    return e_.value
+                if isinstance(e_, ast.BinOp) and isinstance(e_.op, (ast.Add, ast.Sub, ast.Mult, ast.FloorDiv)):
+                    l_, r_ = _int_const(e_.left), _int_const(e_.right)
+                    if l_ is None or r_ is None or (isinstance(e_.op, ast.FloorDiv) and r_ == 0):
+                        return None
+                    return l_ + r_ if isinstance(e_.op, ast.Add) else l_ - r_ if isinstance(e_.op, ast.Sub) else l_ * r_ if isinstance(e_.op, ast.Mult) else l_ // r_
+                return None
+            store_idx = [_int_const(a.targets[0].slice) for _, a in stores if isinstance(a, ast.Assign)]  # type: ignore[union-attr]
+            if any(x is None for x in store_idx):
+                raise AnalysisError(f"{f.loc(r)}: the summary is filled at positions that are not integer literals (a loop or a helper the front end could not spell out); cannot decide which entries are stored")
+            idxs = sorted(set(store_idx))
             ctx.check(idxs == list(range(18)), "R3.vector", "get_mom_ts_1d:all-entries", "every entry 0..17 is stored", f"entries stored: {idxs}", f, r)
         else:
             # assembled some other way (concatenation of blocks, ...): its length is a runtime quantity; what is decided is that it is sanitised before being returned
